@@ -649,7 +649,30 @@ def text_internal_agreement(R, texts):
         R.cov['internal_agreement'] = {'model_parser_unavailable': repr(e)[:200]}
 
 
+def long_prefix_agreement(R):
+    """CTL formulas with two different quantified subformulas sharing a long printed prefix (mccheck.long_prefix_cases): the CTL
+    checker, the CTL* checker on the same tree (as CTL* objects and as CTL objects) must return the same set"""
+    bad = 0
+    for kd, f in long_prefix_cases(R.rng, 3000 if R.thorough else 250):
+        qs = [('CTL', 'obj', f, None), ('CTLS', 'obj', f, None), ('CTLS', 'x:CTL', f, None)]
+        ans = [eval_query(kd, q) for q in qs]
+        R.evaluations += 1
+        states = sorted(kd_py(kd).states())
+        for i in (1, 2):
+            if not relation_holds('eq', states, ans[0], [ans[i]]):
+                bad += 1
+                if bad <= 5:
+                    R.violation('law CTL.modelcheck = CTLS.modelcheck fails on a formula with long look-alike subformulas',
+                                {'kind': 'law', 'law': 'ctl_equals_ctls(long common prefix)', 'relation': 'eq', 'family': 'long_prefix',
+                                 'kripke': kd_json(kd), 'lhs': qjson(qs[0]), 'rhs': [qjson(qs[i])], 'impl_lhs': ans[0], 'impl_rhs': [ans[i]]})
+                break
+        else:
+            R.nontriv(('long_prefix', json.dumps(kd_json(kd), sort_keys=True), f))
+    R.cov['long_prefix_agreement'] = {'differences': bad}
+
+
 def run(R):
+    long_prefix_agreement(R)
     R.rule = ('(K, law, f, g[, h]) instances: K = every structure with <= 2 states over {p,q} (all 148 used round-robin; the atom-pair instances '
               '[(p,q) in quick, 6 pairs / 3 pairs in thorough] of the three-checker family and of the CTL family run on ALL 148 of them) + random '
               'structures with 2..5 (6) states; formulas: propositional (depth <= 1 pool, random depth <= 3), CTL state formulas (depth-1 pool, random '
